@@ -12,5 +12,6 @@ CONSTANTS
   Variant = "@VARIANT@"
   Eager = @EAGER@
   Abort = "@ABORT@"
-INVARIANTS Contract LocksOK NoStuck @CONSERVED@
+  CbErr = @CBERR@
+INVARIANTS Contract LocksOK NoStuck @CONSERVED@ @STRICT@
 CHECK_DEADLOCK FALSE
